@@ -13,10 +13,12 @@ MB = 1024 * 1024
 
 def limit_of(src):
     # explicit: 1/1024 MB = exactly 1024 bytes; env: PLAYBACK_INTERCEPTED_FILE_SIZE_LIMIT=1 (1 MiB); envbig: =3 (3 MiB)
-    return {'explicit': 1024, 'env': MB, 'envbig': 3 * MB}[src]
+    return {'explicit': 1024, 'env': MB, 'envbig': 3 * MB, 'zero': 0, 'envfrac': 0}[src]
 
 
 def size_of(cls, limit):
+    if limit == 0:    # a limit of zero: only the empty file is not above it
+        return {'empty': 0, 'tiny': len(PLACEHOLDER), 'Lp1': 1, 'big': 4099}[cls]
     return {'empty': 0, 'tiny': len(PLACEHOLDER), 'Lm1': limit - 1, 'L': limit, 'Lp1': limit + 1, 'big': 2 * limit + 17}[cls]
 
 
@@ -60,10 +62,10 @@ def trip(cfg, seed):
     fac, refetch = CASSETTES[cfg['cassette']]
     inner = fac()
     try:
-        if cfg['limitSrc'] == 'explicit':
+        if cfg['limitSrc'] in ('explicit', 'zero'):
             lim = limit / float(MB)
         else:
-            os.environ['PLAYBACK_INTERCEPTED_FILE_SIZE_LIMIT'] = {'env': '1', 'envbig': '3'}[cfg['limitSrc']]
+            os.environ['PLAYBACK_INTERCEPTED_FILE_SIZE_LIMIT'] = {'env': '1', 'envbig': '3', 'envfrac': '0.5'}[cfg['limitSrc']]
             lim = None
         path = os.path.join(tmp, 'recorded.bin')
         other = os.path.join(tmp, 'replayed-elsewhere.bin')
@@ -194,10 +196,10 @@ def trip_twice(cfg, seed):
     inner = fac()
     stamp = 1600000000
     try:
-        if cfg['limitSrc'] == 'explicit':
+        if cfg['limitSrc'] in ('explicit', 'zero'):
             lim = limit / float(MB)
         else:
-            os.environ['PLAYBACK_INTERCEPTED_FILE_SIZE_LIMIT'] = {'env': '1', 'envbig': '3'}[cfg['limitSrc']]
+            os.environ['PLAYBACK_INTERCEPTED_FILE_SIZE_LIMIT'] = {'env': '1', 'envbig': '3', 'envfrac': '0.5'}[cfg['limitSrc']]
             lim = None
         path = os.path.join(tmp, 'same-path.bin')
         tr = TapeRecorder(inner)
@@ -303,12 +305,13 @@ def run(rep, tier, seed):
                 'recorder -> cassette -> fetch -> replay on the real handlers with a spy on open(); oracle: placeholder iff '
                 'size > limit, above-limit files never opened for reading, byte-identical restore at the path named by the '
                 'replayed call (inputs) / in the holder (outputs). non-trivial = every trip; distinct = configuration')
-    rep.assumptions = ['PLAYBACK_INTERCEPTED_FILE_SIZE_LIMIT is a whole number of MB (the code truncates it)',
+    rep.assumptions = ['PLAYBACK_INTERCEPTED_FILE_SIZE_LIMIT is truncated to a whole number of MB by the code (0.5 -> 0: every '
+                       'non-empty file is above the limit, like an explicit limit of 0)',
                        'byte contents are sampled per content class (seeded)']
     quick = tier == 'quick'
     consts = dict(Sizes={'empty', 'tiny', 'Lm1', 'L', 'Lp1', 'big'},
                   Contents={'emptyBytes', 'binary', 'newlines', 'placeholderText', 'random', 'base64ish'},
-                  LimitSrcs={'explicit', 'env', 'envbig'},
+                  LimitSrcs={'explicit', 'env', 'envbig', 'zero', 'envfrac'},
                   Roles={'input', 'output'}, PathBys={'position', 'keyword'},
                   Cassettes={'memory', 'file', 's3'}, ReplayPaths={'same', 'other'},
                   Twices={False, True},
